@@ -148,6 +148,7 @@ fn dispatch(id: &str, tier: Tier) -> i32 {
         "C08" => props::c08::run(tier),
         "C09" => props::c09::run(tier),
         "C13" => props::c13::run(tier),
+        "C14" => props::c14::run(tier),
         "C15" => props::c15::run(tier),
         "C16" => props::c16::run(tier),
         "C19" => props::c19::run(tier),
@@ -171,6 +172,7 @@ fn dispatch_replay(id: &str, case: &Value) -> i32 {
         "C08" => props::c08::replay(case),
         "C09" => props::c09::replay(case),
         "C13" => props::c13::replay(case),
+        "C14" => props::c14::replay(case),
         "C15" => props::c15::replay(case),
         "C16" => props::c16::replay(case),
         "C19" => props::c19::replay(case),
